@@ -10,7 +10,16 @@ ASSUMPTIONS = [
   "finite values (NaN/inf are removed by the callers before these routines)",
   "numpy.argsort is modelled as extraction of first minima; with ties at the cut the implementation is checked against the decidable specification only",
 ]
+ASSUMPTIONS += [
+  "the two wrappers that consume the labelling raise ValueError (numpy.nanargmin of an empty array) when every observation is a reported "
+  "failure: modelled as `None` (Model/Filters.v filter_gp_run / filter_spe_run), compared as an error class, refuted as a clause "
+  "(C13_wrapper_all_failed_refuted); the minimum-survives-the-wrapper theorems hold for every history with at least one observation "
+  "that is not a reported failure",
+]
 TRUSTED = ["tools/props/C13.py case generator and the Q-literal printer", "Model/ParetoCorr.v check function"]
+# every observation a reported failure, epsilon-constraint method: both wrappers raise ValueError on the unchanged tree (reported to the
+# coordinator; emitted by the searcher only once KNOWN_FINDINGS.json lists exactly this signature, otherwise noted in the evidence)
+ALL_FAILED_SIG = "C13:wrapper:every-observation-reported-failed:ValueError"
 
 
 def _impl():
@@ -62,11 +71,75 @@ def run_impl(kind, inp):
     pts = numpy.zeros((len(vals), 1))
     _, mv, _, _ = filter_epsilon_contraint(info, pts, vals, numpy.ones_like(vals), fails, lie)
     return dict(mask=[bool(x == lie[inp["om"]]) for x in mv])
+  if kind in ("wrap_gp", "wrap_spe"):
+    info = mm.MultimetricInfo(method=mm.EPSILON_CONSTRAINT, params=mm.ProbabilisticFailuresParams(
+      optimizing_metric=inp["om"], constraint_metric=inp["cm"], epsilon=inp["eps"]))
+    n = len(inp["vals"])
+    vals2 = vals.reshape(n, 2)
+    pts = numpy.array(inp["pts"], dtype=float).reshape(n, -1)
+    lie = numpy.array(inp["lie"], dtype=float)
+    args = [pts, vals2] + ([numpy.array(inp["vars"], dtype=float).reshape(n, 2)] if kind == "wrap_gp" else []) + [fails, lie]
+    snap = [a.copy() for a in args]
+    fn = mm.filter_multimetric_points_sampled if kind == "wrap_gp" else mm.filter_multimetric_points_sampled_spe
+    try:
+      out = fn(info, *args)
+    except ValueError as e:
+      return dict(raised="ValueError", message=str(e))
+    assert all(numpy.array_equal(a, b) for a, b in zip(snap, args)), f"{fn.__name__} modified one of its inputs"
+    if kind == "wrap_gp":
+      p, v, s, l = out
+      return dict(pts=numpy.asarray(p).tolist(), vals=numpy.asarray(v).tolist(), vars=numpy.asarray(s).tolist(), lie=float(l))
+    p, v = out
+    return dict(pts=numpy.asarray(p).tolist(), vals=numpy.asarray(v).tolist())
   raise ValueError(kind)
 
 
+def gen_wrapper(rng, kind):
+  """Histories for the two wrappers with the epsilon-constraint method.  Classes: 0..4 good observations plus several reported
+  failures (the repair has to promote reported failures; 0 good = every observation failed), fewer than five observations with any
+  mask, general masks; lie values distinct from every value or, as the views pass them, carried by the reported failures and possibly
+  tying with an observed value."""
+  style = rng.choice(["few_good", "few_good", "few_good", "short", "short", "general", "general", "all_failed"])
+  hi = rng.choice([2, 5, 12])
+  if style == "few_good":
+    good, bad = rng.randint(0, 4), rng.randint(1, 7)
+    fails = [False] * good + [True] * bad
+    rng.shuffle(fails)
+  elif style == "short":
+    n = rng.randint(1, 4)
+    fails = [rng.random() < rng.choice([0.0, 0.5, 1.0]) for _ in range(n)]
+  elif style == "all_failed":
+    fails = [True] * rng.randint(1, 8)
+  else:
+    n = rng.randint(1, 12)
+    fails = [rng.random() < rng.choice([0.0, 0.2, 0.5, 0.9]) for _ in range(n)]
+  n = len(fails)
+  vals = gen_values(rng, n, 2, hi)
+  om = rng.randint(0, 1)
+  if rng.random() < 0.6:      # no ties in the optimising column: the output is compared exactly
+    col = rng.sample(range(0, max(hi, n) + n + 1), n)
+    for r, x in zip(vals, col):
+      r[om] = x
+  lie_style = rng.choice(["distinct", "distinct", "view", "view_tie"])
+  if lie_style == "distinct":
+    lie = [1000.0 + rng.randint(0, 3), 2000.0 + rng.randint(0, 3)]
+  else:                        # as views/view.py passes them: reported failures carry the lie value in both metrics
+    top = [max(r[j] for r in vals) for j in range(2)]
+    lie = [float(t + (0 if lie_style == "view_tie" else 1)) for t in top]
+    for r, f in zip(vals, fails):
+      if f:
+        r[0], r[1] = lie[0], lie[1]
+  inp = dict(vals=[[float(x) for x in r] for r in vals], eps=rng.randint(1, 15) / 16.0, om=om, cm=1 - om, fails=fails,
+             pts=[[float(rng.randint(0, 9)), float(i)] for i in range(n)], lie=lie, style=style + ":" + lie_style)
+  if kind == "wrap_gp":
+    inp["vars"] = [[rng.randint(0, 7) / 4.0 for _ in range(2)] for _ in range(n)]
+  return inp
+
+
 def gen_case(rng):
-  kind = rng.choice(["pareto", "pareto", "eps", "eps", "epsfail", "force", "label"])
+  kind = rng.choice(["pareto", "pareto", "eps", "eps", "epsfail", "force", "label", "wrap_gp", "wrap_spe", "wrap_spe"])
+  if kind in ("wrap_gp", "wrap_spe"):
+    return kind, gen_wrapper(rng, kind)
   if kind == "pareto":
     n, m = rng.randint(1, 9), rng.randint(1, 3)
     return kind, dict(vals=gen_values(rng, n, m, rng.choice([1, 2, 4, 9])))
@@ -108,6 +181,24 @@ def coq_case(kind, inp, out):
     col = [r[inp["om"]] for r in inp["vals"]]
     ties = len(set(col)) < len(col)
     return f"CLabel {C.qlit(inp['eps'])} {inp['om']} {inp['cm']} {v} {bl(inp['fails'])} {bl(out['mask'])} {C.blit(ties)}"
+  if kind in ("wrap_gp", "wrap_spe"):
+    ql = lambda l: C.listlit(l, C.qlit)
+    om, lie = inp["om"], inp["lie"]
+    head = f"{C.qlit(inp['eps'])} {om} {inp['cm']} {rows(inp['pts'])} {v}"
+    col = [r[om] for r in inp["vals"]]
+    if kind == "wrap_gp":
+      if "raised" in out:
+        o, kept = "None", []
+      else:
+        o = (f"(Some {{| o_pts := {rows(out['pts'])}; o_vals := A1 {ql(out['vals'])}; o_vars := A1 {ql(out['vars'])}; "
+             f"o_lie := Sc {C.qlit(out['lie'])} |}})")
+        kept = [int(p[-1]) for p in out["pts"]]          # the generator numbers the rows in the last coordinate of the point
+      ties = len(set(col)) < len(col)
+      return f"CWrapGP {head} {rows(inp['vars'])} {bl(inp['fails'])} {ql(lie)} {o} {C.listlit(kept, C.nlit)} {C.blit(ties)}"
+    o = "None" if "raised" in out else f"(Some ({rows(out['pts'])}, {ql(out['vals'])}))"
+    rest = [x for x in col if x != lie[om]]              # rows whose value is the lie value read the same whatever their label
+    ties = len(set(rest)) < len(rest)
+    return f"CWrapSPE {head} {bl(inp['fails'])} {ql(lie)} {o} {C.blit(ties)}"
 
 
 def nontrivial(kind, inp, out):
@@ -115,31 +206,56 @@ def nontrivial(kind, inp, out):
     return bool(out["front"]) and bool(out["dominated"])
   if kind == "eps":
     return len(inp["vals"]) >= 2
+  if kind in ("wrap_gp", "wrap_spe"):
+    return "raised" in out or any(inp["fails"])
   return any(inp["fails"]) and not all(inp["fails"])
 
 
+def wrapper_branch(kind, inp, out):
+  """which part of the wrapper's data flow a case exercises (reported in the distribution)"""
+  if "raised" in out:
+    return f"{kind}:every-observation-failed:ValueError"
+  good = sum(1 for f in inp["fails"] if not f)
+  n = len(inp["fails"])
+  if n < 5:
+    return f"{kind}:n<5"
+  return f"{kind}:{'repair-must-promote-reported-failures' if good < 5 else 'five-or-more-good'}"
+
+
 def correspondence(ctx):
-  n = ctx.n(600, 12000)
+  n = ctx.n(800, 14000)
   cases, meta, seen, dist = [], [], set(), {}
   nontriv = 0
+  crashed = []
   for _ in range(n):
     kind, inp = gen_case(ctx.rng)
-    out = run_impl(kind, inp)
+    try:
+      out = run_impl(kind, inp)
+    except Exception as e:  # the implementation must not fail on a valid input (ValueError of the wrappers is an output, see run_impl)
+      crashed.append(dict(what=f"C13 {kind}: implementation raised {type(e).__name__}: {e}", kind=kind, input=inp, observed=repr(e)))
+      if len(crashed) > 20:
+        break
+      continue
     cases.append(coq_case(kind, inp, out))
     meta.append((kind, inp, out))
-    dist[kind] = dist.get(kind, 0) + 1
+    br = wrapper_branch(kind, inp, out) if kind in ("wrap_gp", "wrap_spe") else kind
+    dist[br] = dist.get(br, 0) + 1
     h = C.canon_hash([kind, inp])
     if h not in seen and nontrivial(kind, inp, out):
       nontriv += 1
     seen.add(h)
-  bad = C.run_cases("C13", "From Coq Require Import List QArith Bool.\nFrom LV Require Import Model.Pareto Model.ParetoCorr.\nOpen Scope Q_scope.",
+  bad = C.run_cases("C13", "From Coq Require Import List QArith Bool.\nFrom LV Require Import Model.Pareto Model.Phases Model.Filters Model.ParetoCorr.\nOpen Scope Q_scope.",
                     "case", "check", cases)
   dis = [dict(what=f"C13 correspondence case {i} ({meta[i][0]}): implementation output differs from Model.Pareto / its specification",
               kind=meta[i][0], input=meta[i][1], observed=meta[i][2]) for i in bad]
-  return dict(evaluations=n, distinct_nontrivial=nontriv,
+  dis = crashed + dis
+  return dict(evaluations=len(cases), distinct_nontrivial=nontriv,
               rule="value matrices n<=10 rows, m<=3 metrics (2 for epsilon routines), small integers with forced ties and duplicates, "
                    "dyadic epsilon k/16, thresholds inside/outside the data range; non-trivial = both a dominated and a non-dominated row "
-                   "(pareto), >=2 rows (epsilon), mixed failure mask (repair); distinct by hash of the canonical input",
+                   "(pareto), >=2 rows (epsilon), mixed failure mask (repair), some reported failure (wrappers); the two wrappers "
+                   "filter_multimetric_points_sampled / _spe with the epsilon-constraint method on histories with 0..4 good observations plus "
+                   "1..7 reported failures, n < 5, every observation failed (ValueError = the model's None), general masks, lie values distinct "
+                   "from the data or carried by the failures as the views pass them; distinct by hash of the canonical input",
               samples=[dict(kind=k, input=i, impl_output=o) for k, i, o in meta[:3]], distribution=dist, disagreements=dis)
 
 
@@ -188,10 +304,76 @@ def oracle_view(raw):
   return None
 
 
+def oracle_wrapper(kind, inp):
+  """The clause 'labelling by that threshold never leaves fewer than the guaranteed minimum of successful points (five, or all when
+  fewer exist)' on the data the two wrappers hand on (epsilon-constraint method).  Plain counting; shares nothing with the library or
+  the Coq model.  GP path: rows handed on.  Parzen path: rows that still carry their own value / are not the lie value."""
+  n, om = len(inp["vals"]), inp["om"]
+  need = min(5, n)
+  def fail(what, observed, expected):
+    return dict(signature=f"C13:{kind}:{what}", what=f"{kind}: {what}", input=dict(kind=kind, **inp), observed=observed, expected=expected,
+                oracle="counting the rows handed on")
+  try:
+    out = run_impl(kind, inp)
+  except Exception as e:
+    return dict(signature=f"C13:{kind}:raises:{type(e).__name__}", what=f"{kind} raised {type(e).__name__}: {e}", input=dict(kind=kind, **inp),
+                observed=repr(e), expected="a result", oracle="no exception on valid input")
+  if "raised" in out:
+    if all(inp["fails"]):
+      return None      # every observation a reported failure: ValueError on the unchanged tree too (ALL_FAILED_SIG, handled in search)
+    return fail("raises ValueError although some observation is not a reported failure", out, "data")
+  own = [r[om] for r in inp["vals"]]
+  lie = inp["lie"][om]
+  if kind == "wrap_gp":
+    lens = [len(out["pts"]), len(out["vals"]), len(out["vars"])]
+    if len(set(lens)) != 1:
+      return fail("points, values and variances handed to the GP have different lengths", lens, "equal lengths")
+    ids = [int(p[-1]) for p in out["pts"]]
+    ok = ids == sorted(set(ids)) and all(0 <= i < n for i in ids) and all(
+      out["pts"][k] == inp["pts"][i] and out["vals"][k] == own[i] and out["vars"][k] == inp["vars"][i][om] for k, i in enumerate(ids))
+    if not ok:
+      return fail("a row handed to the GP is not (point, optimising value, optimising variance) of an observation, in order", out, None)
+    if len(ids) < need:
+      return fail("fewer than min(5, n) rows are handed to the GP after epsilon-constraint labelling", dict(rows=len(ids), n=n), need)
+    return None
+  if out["pts"] != inp["pts"] or len(out["vals"]) != n:
+    return fail("points changed or values of another length on the Parzen-estimator path", out, None)
+  if any(o != v and o != lie for o, v in zip(out["vals"], own)):
+    return fail("a value handed to the Parzen estimator is neither the observation's optimising value nor the lie value", out, None)
+  keep_own = sum(1 for o, v in zip(out["vals"], own) if o == v)
+  not_lie = sum(1 for o in out["vals"] if o != lie)
+  if keep_own < need or (lie not in own and not_lie < need):
+    return fail("fewer than min(5, n) observations keep their value after epsilon-constraint labelling on the Parzen-estimator path",
+                dict(keep_their_value=keep_own, not_the_lie=not_lie, n=n, values=out["vals"]), need)
+  return None
+
+
+def all_failed_probe():
+  """Deterministic construction of the recorded behaviour: every observation a reported failure."""
+  inp = dict(vals=[[1.0, 2.0], [2.0, 1.0], [3.0, 3.0]], eps=0.5, om=0, cm=1, fails=[True, True, True], lie=[9.0, 9.0],
+             pts=[[0.0, 0.0], [0.0, 1.0], [0.0, 2.0]], vars=[[0.0, 0.0]] * 3)
+  got = {}
+  for kind in ("wrap_gp", "wrap_spe"):
+    try:
+      got[kind] = run_impl(kind, inp)
+    except Exception as e:
+      got[kind] = dict(raised=type(e).__name__, message=str(e))
+  if all(g.get("raised") == "ValueError" for g in got.values()):
+    return dict(signature=ALL_FAILED_SIG, what="filter_multimetric_points_sampled / _spe with the epsilon-constraint method raise ValueError "
+                "(numpy.nanargmin of an empty array) when every observation is a reported failure: no data, hence no guaranteed minimum",
+                input=dict(kind="all_failed", **inp), observed=got, expected="min(5, n) rows", oracle="deterministic construction")
+  return None
+
+
 def oracle(kind, inp):
   """Direct statement of the property on the implementation's output. Returns a failure dict or None."""
   if kind == "view":
     return oracle_view(inp["raw"])
+  if kind in ("wrap_gp", "wrap_spe"):
+    return oracle_wrapper(kind, inp)
+  if kind == "all_failed":
+    r = all_failed_probe()
+    return r if (r and C.match_finding(PROP, r)) else None
   try:
     out = run_impl(kind, inp)
   except Exception as e:
@@ -260,7 +442,21 @@ def search(ctx, hints, broken):
   rng = ctx.rng
   for _ in range(budget):
     kind, inp = gen_case(rng)
-    if rng.random() < 0.5:  # real-valued data of many magnitudes, larger sizes
+    if kind in ("wrap_gp", "wrap_spe"):
+      if rng.random() < 0.5:  # real-valued data of many magnitudes, more rows; the failure pattern of the generated history is kept
+        scale = 10.0 ** rng.randint(-6, 6)
+        extra = rng.randint(0, 25) if rng.random() < 0.4 else 0
+        inp["fails"] = inp["fails"] + [rng.random() < 0.6 for _ in range(extra)]
+        nrow = len(inp["fails"])
+        inp["vals"] = [[round(rng.gauss(0, 1), rng.choice([0, 1, 6])) * scale for _ in range(2)] for _ in range(nrow)]
+        top = max(abs(x) for r in inp["vals"] for x in r)
+        inp["lie"] = [2 * top + scale, 2 * top + 2 * scale]          # distinct from every value
+        if rng.random() < 0.4:                                        # as the views pass them: failures carry the lie value
+          inp["vals"] = [list(inp["lie"]) if f else r for r, f in zip(inp["vals"], inp["fails"])]
+        inp["pts"] = [[rng.random(), float(i)] for i in range(nrow)]
+        if kind == "wrap_gp":
+          inp["vars"] = [[abs(rng.gauss(0, 1)) for _ in range(2)] for _ in range(nrow)]
+    elif rng.random() < 0.5:  # real-valued data of many magnitudes, larger sizes
       nrow = rng.randint(1, 40)
       m = rng.randint(1, 4) if kind == "pareto" else 2
       scale = 10.0 ** rng.randint(-6, 6)
@@ -283,7 +479,15 @@ def search(ctx, hints, broken):
     r = oracle("view", dict(raw=raw))
     if r and r["signature"] not in {f["signature"] for f in fails}:
       fails.append(r)
-  return dict(evaluations=n, failures=fails, oracle="brute-force dominance / closed-form threshold / counting; range clause at the view's failure models")
+  res = dict(evaluations=n, failures=fails, oracle="brute-force dominance / closed-form threshold / counting; range clause at the view's failure models; "
+             "rows handed on by the two wrappers (epsilon-constraint method) counted against min(5, n)")
+  probe = all_failed_probe()
+  if probe is not None:
+    if C.match_finding(PROP, probe):
+      fails.append(probe)
+    else:
+      res["unlisted_finding"] = dict(signature=probe["signature"], what=probe["what"], input=probe["input"])
+  return res
 
 
 def replay(ctx, payload):
